@@ -40,6 +40,8 @@ type c14Task struct {
 	FromFile    bool       `json:"from_file,omitempty"` // the input is loaded with text.ReadFile (the library's only I/O) from a file the harness wrote; equal inputs share one path
 	path        string
 	soloCtx     func() *parsley.Context // same placement as in the concurrent phase, fresh objects
+	common      []parsley.File          // caller-owned prelude slice spread into NewFileSet by the run itself
+	fname       string
 	StaticCheck bool       `json:"static_check,omitempty"`
 	Transform   bool       `json:"transform,omitempty"` // ctx.EnableTransformation()
 	Twice       bool       `json:"twice,omitempty"`     // the run uses its context twice: a Parse (syntax check) and then the Parse / Evaluate proper
@@ -58,6 +60,12 @@ type c14Case struct {
 	// positions are unique across a project's files - and is filled before the runs start;
 	// every run has its own context and reader
 	ShareFileSet bool `json:"share_file_set,omitempty"`
+	// Common: every run builds its OWN file set as NewFileSet(common...) + AddFile(own file)
+	// from one caller-owned slice of prelude files ("the project's preludes") of length
+	// Common[0] and capacity Common[1]. With no preludes the file sets are built by the runs
+	// themselves, concurrently; with preludes (shared File objects, whose offset AddFile
+	// writes) the caller builds them one after the other before the runs start.
+	Common []int `json:"common,omitempty"`
 	Graphs      []GraphSpec `json:"graphs"`
 	Tasks       []c14Task   `json:"tasks"`
 	MapSeed     uint64      `json:"map_seed"`
@@ -196,6 +204,10 @@ func (*c14Prop) Gen(r *Rand, pl *Plan) Case {
 	useFiles := r.Chance(1, 10) // all inputs of this case go through text.ReadFile
 	c.ShareFiles = !useFiles && r.Chance(1, 10)
 	c.ShareFileSet = !useFiles && !c.ShareFiles && r.Chance(1, 10) // (prefix / huge placements of the tasks are ignored in this mode)
+	if !c.ShareFiles && !c.ShareFileSet && r.Chance(1, 10) {
+		l := r.Intn(3)
+		c.Common = []int{l, l + r.Intn(6)} // (prefix / huge placements are ignored in this mode too)
+	}
 	for i := 0; i < nt; i++ {
 		t := c14Task{Graph: r.Intn(ng), Eval: r.Chance(2, 3), StaticCheck: r.Chance(1, 6), Transform: r.Chance(1, 6), Twice: r.Chance(1, 6)}
 		spec := &c.Graphs[t.Graph]
@@ -331,14 +343,18 @@ func (t *c14Task) observeCtx(p parsley.Parser, prepared *parsley.Context) (obs s
 			obs = fmt.Sprintf("PANIC %v", r)
 		}
 	}()
-	fs := parsley.NewFileSet()
+	fs := parsley.NewFileSet(t.common...)
 	if t.Huge > 0 {
 		fs.AddFile(&hugeFile{n: t.Huge})
 	}
 	for i, pre := range t.Prefix {
 		fs.AddFile(text.NewFile(fmt.Sprintf("pre%d", i), []byte(pre)))
 	}
-	f := text.NewFile("in", []byte(t.Input))
+	fname := "in"
+	if t.fname != "" {
+		fname = t.fname
+	}
+	f := text.NewFile(fname, []byte(t.Input))
 	if t.FromFile && t.path != "" {
 		rf, err := text.ReadFile(t.path)
 		if err != nil {
@@ -568,6 +584,47 @@ func c14Run(c *c14Case, probeSequential bool) Verdict {
 			k := i + 1
 			t.soloCtx = func() *parsley.Context { _, ctx := layout(k); return ctx }
 			v.Probes["runs_on_a_shared_file_set"]++
+		}
+	}
+	if len(c.Common) == 2 && !c.ShareFiles && !c.ShareFileSet {
+		cl, cc := c.Common[0], c.Common[1]
+		mk := func(capacity int) []parsley.File {
+			s := make([]parsley.File, 0, capacity)
+			for j := 0; j < cl; j++ {
+				f := text.NewFile(fmt.Sprintf("common%d", j), []byte(fmt.Sprintf("prelude %d\nline\n", j)))
+				f.Position(0)
+				s = append(s, f)
+			}
+			return s
+		}
+		common := mk(cc)
+		for i := range c.Tasks {
+			t := &c.Tasks[i]
+			t.fname = fmt.Sprintf("in%d", i+1)
+			t.Huge, t.Prefix, t.FromFile = 0, nil, false
+			if cl == 0 {
+				t.common = common // spread by the run itself
+				tt := t
+				t.soloCtx = func() *parsley.Context {
+					f := text.NewFile(tt.fname, []byte(tt.Input))
+					fs := parsley.NewFileSet(mk(cc)...)
+					fs.AddFile(f)
+					return parsley.NewContext(fs, text.NewReader(f))
+				}
+			} else {
+				f := text.NewFile(t.fname, []byte(t.Input))
+				fs := parsley.NewFileSet(common...)
+				fs.AddFile(f)
+				prepared[i+1] = parsley.NewContext(fs, text.NewReader(f))
+				tt := t
+				t.soloCtx = func() *parsley.Context {
+					f := text.NewFile(tt.fname, []byte(tt.Input))
+					fs := parsley.NewFileSet(mk(cl)...)
+					fs.AddFile(f)
+					return parsley.NewContext(fs, text.NewReader(f))
+				}
+			}
+			v.Probes["file_sets_built_from_a_common_prelude_slice"]++
 		}
 	}
 	before := snapshotRoots()
@@ -902,9 +959,9 @@ func (*c14Prop) Shrink(cc Case) []Case {
 			}
 		}
 	}
-	if c.ShareFiles || c.ShareFileSet {
+	if c.ShareFiles || c.ShareFileSet || c.Common != nil {
 		k := clone()
-		k.ShareFiles, k.ShareFileSet = false, false
+		k.ShareFiles, k.ShareFileSet, k.Common = false, false, nil
 		out = append(out, k)
 	}
 	if len(c.Warm) > 0 {
